@@ -18,6 +18,15 @@ What is proved here, for ALL inputs of the models:
 import JsonV.Lemmas.DepthL
 import JsonV.Lemmas.DepthValueL
 import JsonV.Lemmas.DepthCycleL
+import JsonV.Lemmas.DepthTree
+import JsonV.Lemmas.DepthTerm
+import JsonV.Lemmas.FormatMain
+import JsonV.Lemmas.FieldsFuel
+import JsonV.Lemmas.FieldsEscape
+import JsonV.Lemmas.CmpL
+import JsonV.Lemmas.GlueMeaningFuel
+import JsonV.Lemmas.ResumeNum
+import JsonV.Model.TokenLoop
 import JsonV.Gen.Constants
 
 namespace JsonV.Props.C20
@@ -164,6 +173,7 @@ theorem value_test_needs_depth_inv (max : Nat) (ks : List Bool) (rest : List Sym
     rw [show 2 * (ks.length + 1) + 1 = 2 * ks.length + 1 + 2 by omega]
     simpa [nest, opens_cons, closes_cons, List.append_assoc] using this
 
+
 /-! ### The two paths agree, also on split values -/
 
 /-- Descend `ks1` levels by tokens, then hand the remaining `ks2` levels to the value path:
@@ -273,5 +283,186 @@ example : marshal { max := 2, after := 1000, guarded := (fun _ => false) } [⟨.
 example : marshal { max := 2, after := 1000 } [⟨.slice, [1]⟩, ⟨.slice, [2]⟩, ⟨.struct, []⟩] 10 1 [] 0 = .maxDepth := by decide
 example : marshal structShortcutCfg [⟨.slice, [1]⟩, ⟨.slice, [2]⟩, ⟨.struct, []⟩] 10 1 [] 0 = .ok := by decide
 example : nestDepthOk 2 1 (nestEmpty [false, false] false) = false := by decide
+
+/-! ### Value path on ARBITRARY texts (wire's model of consumeValue/consumeArray/consumeObject, the grammar of
+Spec/Grammar.lean parameterised by the nesting limit): trees with siblings, names, strings, whitespace -/
+
+section Trees
+open JsonV.Model.Validate JsonV.Spec.Grammar JsonV.Lemmas.WireValue JsonV.Lemmas.WireComplete JsonV.Lemmas.DepthTree
+
+/-- `G o` is the grammar instance of the options (Props/C01.lean calls it `gopts`). -/
+abbrev TextWithin (o : VOpts) (k : Nat) (b : Bytes) : Prop := JText (G o) k (nameKey o) b
+
+/-- the limit of wire's value-path model is the constant of the source -/
+theorem tree_limit_tie : Validate.maxNestingDepth = 10000 := by decide
+
+/-- **Accepted**: every text of the grammar whose nesting is at most `k ≤ 10000` — any tree, with siblings —
+is accepted by `Value.IsValid` (corollary of C01 `valid_iff` and monotonicity of the grammar in the limit). -/
+theorem tree_depth_accepted (o : VOpts) (k : Nat) (hk : k ≤ 10000) (b : Bytes) (h : TextWithin o k b) :
+    isValid o b = true := by
+  have := JsonV.Lemmas.WireComplete.validText_complete o b (jtext_mono (by rw [tree_limit_tie]; exact hk) h)
+  simp [isValid, this]
+
+/-- …and a text of the grammar (with any limit `M`) is accepted IFF its nesting is at most 10000. -/
+theorem tree_depth_iff (o : VOpts) (M : Nat) (b : Bytes) (_h : TextWithin o M b) :
+    isValid o b = true ↔ TextWithin o Validate.maxNestingDepth b :=
+  ⟨fun hv => by
+      unfold isValid at hv
+      have : (validText o b).2 = .ok := by simpa using hv
+      exact validText_sound o b (validText o b).1 (Prod.ext rfl this),
+   fun ht => by simp [isValid, JsonV.Lemmas.WireComplete.validText_complete o b ht]⟩
+
+/-- **Refused, with the depth error, at the offset of the offending bracket — whatever follows it.**
+`Ctx o 0 p`: `p` opens 10000 nested containers from the top level, every earlier sibling on the way being a complete
+value within the limit (objects: with their names, unique unless AllowDuplicateNames, and the colon of the
+member being entered).  The next opening bracket would be level 10001: `validText` (IsValid / ReadValue /
+Unmarshal's framing) answers errMaxDepth with ByteOffset = the offset of that bracket.  The remainder `rest` is
+arbitrary — the refusal does not depend on the text being well-formed after the bracket. -/
+theorem tree_bracket_refused (o : VOpts) (w p : Bytes) (c : UInt8) (rest : Bytes) (hw : JWs w) (hctx : Ctx o 0 p)
+    (hc : c = 0x5B ∨ c = 0x7B) :
+    validText o (w ++ (p ++ c :: rest)) = (w.length + p.length, .maxDepth) :=
+  validText_ctx o w p c rest hw hctx hc
+
+/-- **Every text of the grammar whose nesting exceeds 10000** (a text within some limit `M` that is not a text
+within 10000 — e.g. `M = 10001`: nesting exactly 10001) **is refused with errMaxDepth at the offset of its first
+bracket at nesting 10001**: it decomposes as blanks, a context, that bracket and a remainder. -/
+theorem tree_depth_rejected (o : VOpts) (M : Nat) (b : Bytes) (h : TextWithin o M b)
+    (hn : ¬ TextWithin o Validate.maxNestingDepth b) :
+    ∃ w p c rest, b = w ++ (p ++ c :: rest) ∧ JWs w ∧ Ctx o 0 p ∧ (c = 0x5B ∨ c = 0x7B) ∧
+      validText o b = (w.length + p.length, .maxDepth) ∧ isValid o b = false := by
+  obtain ⟨w1, v, w2, hw1, hv, hw2, rfl⟩ := h
+  have hnv : ¬ JV o 0 v := fun hjv => hn ⟨w1, v, w2, hw1, hjv, hw2, rfl⟩
+  obtain ⟨p, c, rest, rfl, hctx, hc⟩ := exceeds_has_ctx o M hv (Nat.zero_le _) hnv
+  have hval := validText_ctx o w1 p c (rest ++ w2) hw1 hctx hc
+  refine ⟨w1, p, c, rest ++ w2, by simp [List.append_assoc], hw1, hctx, hc, ?_, ?_⟩
+  · rw [← hval]; simp [List.append_assoc]
+  · have : validText o (w1 ++ (p ++ c :: rest) ++ w2) = (w1.length + p.length, .maxDepth) := by
+      rw [← hval]; simp [List.append_assoc]
+    unfold isValid
+    rw [this]
+    rfl
+
+/-- the hypotheses are satisfiable: `[` ×10000 is a context from the top level … -/
+theorem ctx_example : Ctx {} 0 (List.replicate 10000 0x5B) := by
+  have key : ∀ n d, d + n = Validate.maxNestingDepth → Ctx {} d (List.replicate n 0x5B) := by
+    intro n
+    induction n with
+    | zero => intro d hd; simp at hd; subst hd; exact .here
+    | succ n ih =>
+      intro d hd
+      have := Ctx.arr (o := {}) d [] [] (List.replicate n 0x5B) (by omega) (by simp) (by simp) jws_nil (ih (d + 1) (by omega))
+      simpa [sepd, List.replicate_succ] using this
+  exact key 10000 0 (by rw [tree_limit_tie])
+
+/-- … so `[`×10001 followed by ANYTHING is refused at offset 10000 -/
+example (rest : Bytes) : validText {} (List.replicate 10000 0x5B ++ 0x5B :: rest) = (10000, .maxDepth) := by
+  have := tree_bracket_refused {} [] (List.replicate 10000 0x5B) 0x5B rest jws_nil ctx_example (Or.inl rfl)
+  rw [List.nil_append, List.length_nil, Nat.zero_add, List.length_replicate] at this
+  exact this
+
+end Trees
+
+/-! ### Termination of the modelled loops: no model ever exhausts its fuel
+
+Each model of a Go loop carries explicit fuel; `terminates_*` says that the fuel the model is started with is never
+exhausted, for EVERY input — i.e. the modelled loop terminates.  What each covers in /repo:
+
+* `terminates_validText`, `terminates_readValue`: jsontext/decode.go consumeValue / consumeObject / consumeArray
+  (recursion and both `for` loops), with internal/jsonwire/decode.go ConsumeWhitespace, ConsumeLiteral,
+  ConsumeSimpleString / ConsumeStringResumable (the rune loop), ConsumeSimpleNumber / ConsumeNumberResumable
+  — as used by Value.IsValid, Decoder.ReadValue, Unmarshal's framing and v1.Valid (C01, C09);
+* `terminates_stream`: the caller's `for { ReadValue }` loop over a stream until io.EOF or an error (C01 model);
+* `terminates_lex`: the lexer of the Format/Compact/Indent model (one step per lexeme or blank; C12);
+* `terminates_structFields`: the breadth-first walk of makeStructFields over embedded struct types, including
+  recursive type graphs (fields.go; C15), `terminates_needEscape`: jsonwire.NeedEscape's loop (C15);
+* `terminates_compareUTF16`: the loop of jsonwire.CompareUTF16 (C13);
+* `terminates_meaningParse`: the value/members/elements recursion of the meaning parser used by C03/C04 (any fuel
+  ≥ 2·|b| gives the same answer as any successful run);
+* `terminates_marshalTraversal` (`cycle_bounded` above): the recursion of marshal over Go values;
+* `terminates_valueSkeleton`: the skeleton model of this file.
+NOT covered by a no-fuel theorem (validated by the watchdogs of the harness only): the ReadToken loop model
+(`TokenLoop.tokens`, kept as `terminates_tokens_full`), Encoder.WriteValue's reformatValue model (C06 proves
+its result when it succeeds, not fuel adequacy), v1.Indent's placeholder loop, Unmarshal's recursion over Go values. -/
+
+section Termination
+open JsonV.Model.Validate
+
+theorem terminates_validText (o : VOpts) (b : Bytes) : (validText o b).2 ≠ .fuel :=
+  JsonV.Lemmas.WireFuel.validText_no_fuel o b
+
+theorem terminates_readValue (o : VOpts) (fuel : Nat) (b : Bytes) (hf : 3 * b.length + 1 ≤ fuel) :
+    (readValueTop o fuel b).2 ≠ .fuel :=
+  JsonV.Lemmas.WireFuel.readValueTop_no_fuel o fuel b hf
+
+theorem terminates_stream (o : VOpts) (b : Bytes) : (stream o b).2.2 ≠ .fuel :=
+  JsonV.Lemmas.DepthTerm.stream_no_fuel o b
+
+theorem terminates_lex (n : Nat) (b : Bytes) (h : b.length < n) : JsonV.Fmt.lexF n b = JsonV.Fmt.lex b :=
+  JsonV.Fmt.lexF_fuel n (b.length + 1) b h (Nat.lt_succ_self _)
+
+theorem terminates_structFields (g : JsonV.Model.Fields.Graph) (root : JsonV.Model.Fields.StructId) :
+    (JsonV.Model.Fields.search g root).queue = [] :=
+  JsonV.Lemmas.Fields.search_queue_nil g root
+
+theorem terminates_needEscape (fuel : Nat) (b : Bytes) (h : b.length ≤ fuel) :
+    JsonV.Model.Fields.needEscapeAux fuel b = JsonV.Model.Fields.needEscape b :=
+  JsonV.Lemmas.Fields.needEscape_fuel fuel b h
+
+theorem terminates_compareUTF16 (f : Nat) (x y : Bytes) (h : x.length ≤ f ∨ y.length ≤ f) :
+    JsonV.Model.Compare.go f x y = JsonV.Model.Compare.compareUTF16 x y :=
+  JsonV.Lemmas.CmpL.go_fuel f x.length x y h (Or.inl (Nat.le_refl _))
+
+theorem terminates_meaningParse (n : Nat) : JsonV.Lemmas.GlueMeaningFuel.FuelOK n :=
+  JsonV.Lemmas.GlueMeaningFuel.fuelOK n
+
+theorem terminates_marshalTraversal (g : Heap) (n : Nat) :
+    marshal srcCfg g (10001 * (3 * g.length + 3)) 1 [] n ≠ .outOfFuel := cycle_bounded_src g n
+
+/-- the skeleton value path: more fuel never changes an answer, and `2·|text|+1` answers every nest -/
+theorem terminates_valueSkeleton (max fuel fuel' depth : Nat) (inp : List Sym) (r : Except VErr (List Sym))
+    (h : value max fuel depth inp = r) (hr : r ≠ .error .fuel) (hle : fuel ≤ fuel') : value max fuel' depth inp = r :=
+  value_fuel_le max h hr hle
+
+/-- full statement, not proved: the ReadToken loop model never exhausts its fuel `|b| + 1` -/
+def terminates_tokens_full : Prop :=
+  ∀ (o : VOpts) (b : Bytes), (JsonV.Model.TokenLoop.tokens o b).2.2 ≠ .fuel
+
+end Termination
+
+/-! ### `scan_index_safe` at model level
+
+The byte-scanner models (Model/WireDecode.lean, Model/Resume.lean, Model/Validate.lean, Model/TokenLoop.lean) contain
+NO indexed access: no `b[i]!`, `get!`, `getD` or `head!` on bytes (the harness greps the sources on every run).  Every
+byte is obtained by pattern matching on the remaining input with an explicit `[]` arm — the model's counterpart of
+the Go guards `uint(len(b)) > uint(n)` / `d.needMore(pos)` — so an out-of-range access cannot be expressed.  What
+remains to state is that the OFFSETS the scanners hand back (which the Go code uses to re-slice `d.buf[:pos]`)
+are within the input: -/
+
+section IndexSafe
+open JsonV.Model.Wire JsonV.Model.Validate
+
+theorem scan_index_safe (o : VOpts) (b : Bytes) :
+    consumeWhitespace b ≤ b.length ∧
+    (JsonV.Model.Resume.consumeNumberResumable b 0 0).1 ≤ b.length ∧
+    (∀ v n f, consumeString b v = (n, f, .ok) → n ≤ b.length) ∧
+    (∀ fuel d n, d ≤ Validate.maxNestingDepth → consumeValue o fuel (d + 1) b = (n, .ok) → n ≤ b.length) ∧
+    (∀ fuel n, readValueTop o fuel b = (n, .ok) → n ≤ b.length) :=
+  ⟨JsonV.Lemmas.WireBasic.ws_le b, JsonV.Model.Resume.num_bound b,
+   fun v n f h => (JsonV.Lemmas.WireString.consumeString_sound b v n f h).1,
+   fun fuel d n hd h => ((JsonV.Lemmas.WireValue.sound_all o fuel).1 d b n hd h).1,
+   fun fuel n h => (JsonV.Lemmas.WireValue.readValueTop_ok o fuel b n h).1⟩
+
+/-- full statement, not proved: the offset reported with EVERY outcome (errors included) is within the input -/
+def scan_offsets_full : Prop :=
+  ∀ (o : VOpts) (b : Bytes), (validText o b).1 ≤ b.length
+
+/-- …proved for the depth refusal: the reported offset is a valid index, and the byte there is the bracket -/
+theorem depth_offset_in_range (o : VOpts) (w p : Bytes) (c : UInt8) (rest : Bytes) (hw : JsonV.Spec.Grammar.JWs w)
+    (hctx : JsonV.Lemmas.DepthTree.Ctx o 0 p) (hc : c = 0x5B ∨ c = 0x7B) :
+    (w ++ (p ++ c :: rest))[(validText o (w ++ (p ++ c :: rest))).1]? = some c := by
+  rw [JsonV.Lemmas.DepthTree.validText_ctx o w p c rest hw hctx hc]
+  simp
+
+end IndexSafe
 
 end JsonV.Props.C20
